@@ -1022,8 +1022,19 @@ impl Real {
                 continue;
             }
             if self.docs[*doc].expanded && matches!(n, XmlNode::Text(_) | XmlNode::CData(_) | XmlNode::EntityReference(_)) {
-                // in the text-expanded view a raw piece is represented by the merged node of its run
-                if matches!(n.parent_node(), Some(XmlNode::Element(_))) {
+                // in the text-expanded view the child list holds the merged node of the run, not the raw piece a
+                // mutator returned: the piece names a parent that does not list it and has no siblings
+                if let Some(XmlNode::Element(p)) = n.parent_node() {
+                    let listed = p.as_node().child_nodes().iter().any(|c| c.id() == n.id());
+                    let sibs = n.previous_sibling().is_some() || n.next_sibling().is_some();
+                    let alone = p.as_node().child_nodes().length() <= 1;
+                    if !listed && !sibs && !alone {
+                        fails.push(Fail::new(
+                            "C12",
+                            "expanded_raw_piece_navigation",
+                            format!("the raw piece #{} (text-expanded document) reports parent #{} but the parent's child list does not contain it and it reports no siblings", n.id(), p.as_node().id()),
+                        ));
+                    }
                     continue;
                 }
             }
